@@ -25,12 +25,13 @@ def base_program(rnd):
     g = G.Gen7(rnd, depth=2)
     g.macros = [("mm", 1)]
     filler = lambda in_loop=False: g.body(2, in_loop, [], not in_loop)
-    prog = [G.const("k1", G.num(3))]
+    prog = [G.defseg("sg", G.num(0x2000, "hex")), G.const("k1", G.num(3))]      # an explicit segment, so that `.segment "sg" { }` blocks exist as a site
     g.consts.append("k1")
     prog.append(G.macrodef("mm", ["pp"], filler() + [G.insn("lda", "imm", G.ident(["pp"]))]))
     prog += [G.label("dat"), G.data(1, [G.num(1), G.num(2)])]
     sites = {}
-    blocks = [("brace", G.braces(filler())), ("loop", G.loop(G.num(2), filler(True))), ("iftaken", G.if_(G.num(1), filler(), filler()))]
+    blocks = [("brace", G.braces(filler())), ("loop", G.loop(G.num(2), filler(True))), ("iftaken", G.if_(G.num(1), filler(), filler())),
+              ("segblock", G.useseg("sg", filler()))]
     rnd.shuffle(blocks)
     for kind, st in blocks:
         prog += filler()
@@ -267,8 +268,11 @@ def main(tier):
                     continue
                 cid += 1
                 pos = rnd.randrange(0, (top_limit if kind == "top" else len(lst)) + 1)
+                # the variants that refer to `index` (faulty only in the first iteration) belong to loop bodies: elsewhere they
+                # would be an undefined-symbol fault in disguise
+                vv = rnd.randrange(4) if (kind == "loop" or cls not in ("immrange", "arity")) else rnd.randrange(2)
                 recs.append({"id": cid, "prog": G.tla_ready(prog), "files": {fn: G.tla_ready(p) for fn, p in files.items()},
-                             "class": cls, "v": rnd.randrange(4), "infile": infile, "path": path, "pos": pos})
+                             "class": cls, "v": vv, "infile": infile, "path": path, "pos": pos})
                 bases[cid] = (cls, kind, infile)
     wd = V.workdir("C04")
     tr, out = os.path.join(wd, "inject.ndjson"), os.path.join(wd, "injected.ndjson")
@@ -315,7 +319,7 @@ def main(tier):
     rep.cov["traces_validated_against_impl"] = len(jrecs)
     rep.cov["evaluations"] = len(jrecs)
     rep.cov["distinct_nontrivial"] = len({(bases[i][0], bases[i][1], jobs[i]["files"]["main.asm"], jobs[i]["files"].get("inc.asm")) for i in jobs})
-    rep.cov["rule"] = ("%d valid base programs (macro, brace scope, loop, taken .if, import, far label) x 11 fault classes x 6 sites x seeded position/variant; "
+    rep.cov["rule"] = ("%d valid base programs (macro, brace scope, loop, taken .if, `.segment` block, import, far label) x 11 fault classes x 7 sites x seeded position/variant; "
                        "each built by `mos build` as a process with sentinel files in target/; distinct = distinct (class, site, project text)" % nbase)
     rep.cov["model_predicted_not_rejected"] = drift
     if drift:
